@@ -50,4 +50,7 @@ def check(model, tier):
     purity.r_engine_stateless(ctx, "R08.10", SQL_ENGINE, ("to_executable", "to_payload", "conform", "append_unary", "append_binary"))
     structure.r17_conform(ctx, rules=("R08.11", "R08.12", "R08.13"))
     run.assume("EngineError for iteration-engine joins and for unprocessed transfers/materializations are documented refusals")
+    from ..rules.foundation import run_foundation
+
+    run_foundation(ctx, "08")
     return run
